@@ -326,6 +326,7 @@ func c20TempFiles(x *xctx) *violation {
 	got := make([][]made, ntasks)
 	cfg := c20Sched(t, 300)
 	cfg.Tape = t
+	concurrentCleanup := t.Bool(K, 40)
 	var cleanupErr error
 	res := simrt.Exec(cfg, func() {
 		var hs []*simrt.Handle
@@ -348,6 +349,11 @@ func c20TempFiles(x *xctx) *violation {
 				}
 			}))
 		}
+		if concurrentCleanup {
+			// a clean-up running while files are still being created and
+			// registered: whatever it misses must be removed by the next one
+			hs = append(hs, simrt.GoJoinable("cleanup", func() { cleanupTempFiles() }))
+		}
 		for _, h := range hs {
 			simrt.Join(h)
 		}
@@ -357,6 +363,7 @@ func c20TempFiles(x *xctx) *violation {
 		return v
 	}
 	seen := map[string]string{}
+	reused := map[string]bool{}
 	for i := range got {
 		for _, m := range got[i] {
 			if m.err != nil {
@@ -366,7 +373,13 @@ func c20TempFiles(x *xctx) *violation {
 				return violf("tempfile-clobber", "newTempFile returned %s which already existed", m.name)
 			}
 			if other, dup := seen[m.name]; dup {
-				return violf("tempfile-duplicate", "two concurrent newTempFile calls returned the same name %s (%q and %q)", m.name, other, m.content)
+				if !concurrentCleanup {
+					return violf("tempfile-duplicate", "two concurrent newTempFile calls returned the same name %s (%q and %q)", m.name, other, m.content)
+				}
+				// With a clean-up running concurrently a name may be handed out
+				// again after its first file was removed; which creator's
+				// contents remain is then not checked.
+				reused[m.name] = true
 			}
 			seen[m.name] = m.content
 		}
@@ -377,14 +390,20 @@ func c20TempFiles(x *xctx) *violation {
 		}
 	}
 	for name, want := range seen {
-		if data, ok := simos.GetFile(name); !ok || string(data) != want {
+		data, ok := simos.GetFile(name)
+		if (!ok && concurrentCleanup) || reused[name] {
+			continue // already removed by the concurrent clean-up, or legitimately re-used
+		}
+		if !ok || string(data) != want {
 			return violf("tempfile-clobber", "file %s holds %q, its creator wrote %q", name, data, want)
 		}
 	}
 	// Registry cleaned exactly once.
 	res2 := simrt.Exec(simrt.Config{Tape: t}, func() { cleanupErr = cleanupTempFiles() })
 	x.note(res2)
-	if cleanupErr != nil {
+	if cleanupErr != nil && !concurrentCleanup {
+		// (with a concurrent clean-up a name may legitimately be registered
+		// twice after its first file was removed; the second remove then fails)
 		return violf("tempfile-cleanup", "cleanupTempFiles: %v", cleanupErr)
 	}
 	for name := range seen {
